@@ -388,7 +388,8 @@ class MarkupTemplate(Template):
                                                  vars)
                     for event in self._match(self._flatten(template, ctxt,
                                                            **vars),
-                                             ctxt, start=idx + 1, **vars):
+                                             ctxt, start=idx + 1, end=end,
+                                             **vars):
                         yield event
 
                     # If the match template did not actually call select to
